@@ -203,6 +203,10 @@ func isNotInitErr(err error) bool {
 func doCall(c mcp.Connector, call string) error {
 	ctx, cancel := context.WithTimeout(context.Background(), 5*time.Second)
 	defer cancel()
+	return doCallCtx(ctx, c, call)
+}
+
+func doCallCtx(ctx context.Context, c mcp.Connector, call string) error {
 	var err error
 	switch call {
 	case "ListTools":
